@@ -237,6 +237,17 @@ def sampleHist : List Op :=
 example : ((runHist cfgE sampleHist (initSt 4)).map fun s => (s.blocks.length, s.blocks.all (·.freed), s.arrs)) =
     some (5, true, [none, none, none, none]) := by decide +kernel
 
+/-- an element type with non-trivial (logged) default construction and a trivial destructor — the only mixed combination
+    `c.OK` admits besides the two pure ones; `inv_step`, `inv_history`, `discipline_checked` hold for it as for every `c.OK` -/
+def cfgSemi : Cfg := { cfgE with trivDtor := true }
+example : cfgSemi.OK := ⟨(by intro h; cases h), (by decide)⟩
+/-- `reextent` value-constructs the new elements of such a type (its cells are alive afterwards although nothing is ever destroyed) -/
+example : ((runHist cfgSemi [.ctorFill 0 1 [⟨0, 2⟩, ⟨0, 1⟩], .reextent 0 [⟨0, 3⟩, ⟨0, 1⟩]] (initSt 4)).map fun s =>
+    s.blocks.map fun b => (b.freed, b.cells)) =
+    some [(true, [Cell.live, Cell.live]), (false, [Cell.live, Cell.live, Cell.live])] := by decide +kernel
+/-- assigning to a cell that was never constructed is undefined for such a type (what skipping that value construction leads to) -/
+example : (match assignCell cfgSemi 0 0 { blocks := [freshBlock 1 2] } with | .ub _ => true | _ => false) = true := by decide +kernel
+
 /-- the invariant is falsifiable: a block nobody owns violates it -/
 example : ¬ Good cfgE { blocks := [freshBlock 1 2], arrs := [none] } := by
   intro h
